@@ -157,6 +157,15 @@ func genC04(r *Rand, tier string) *Case {
 		cc.Expect = nil
 		cc.Variant = "copy-rows"
 		c = cc
+	case kind == 8: // a stalled peer: the hostile connection stops in the middle of a message and stays open while others are served (E2)
+		genHistory(r, c, histOpts{simple: true, extended: true, errs: true, params: true, maxUnits: 3})
+		cc := &c.Conns[0]
+		stall := pgwire.FMsg{K: r.Pick("Q", "P", "B", "d"), S1: "never-finished", S2: "x", Data: []byte("zzzz"), Cut: intp(r.Range(1, 7))}
+		cc.Steps = append(cc.Steps, Step{Msgs: []pgwire.FMsg{stall}})
+		cc.NoEOF = true
+		cc.Cuts = nil
+		c.Variant = "stalled-peer"
+		c.Sched = &SchedCase{Strategy: r.Pick("uniform", "pct"), Depth: 2, MaxSteps: 100000}
 	default: // a generated session with seeded transport faults
 		genHistory(r, c, histOpts{simple: true, extended: true, copy: r.Chance(1, 3), errs: true, params: true, maxUnits: 5})
 		cc := &c.Conns[0]
@@ -294,6 +303,27 @@ func invocationTrace(cs *connState) string {
 }
 
 func checkC04(x *Exec, c *Case) ([]Violation, bool) {
+	if c.Variant == "stalled-peer" {
+		r := x.Run(c)
+		c.Sched.Schedule = r.Schedule
+		var viol []Violation
+		if r.Outcome == RunBudget {
+			return nil, false
+		}
+		nb := len(r.Conns) - 1
+		bs := r.Conns[nb]
+		t := ParseOut(bs)
+		viol = append(viol, GrammarViolation("C04", nb, t)...)
+		if bs.Closed == 0 || r.Outcome == RunLockDead {
+			viol = append(viol, Violation{Prop: "C04", Rule: "bystander-starved", Sig: "bystander-starved", Detail: fmt.Sprintf("a peer that stopped in the middle of a message keeps another connection from being served: outcome=%d parked=%v", r.Outcome, r.Stuck)})
+		} else if t.Grammar == nil {
+			if mr := MatchConn(c, bs, t); !mr.OK {
+				viol = append(viol, Violation{Prop: "C04", Rule: "bystander-" + mr.Rule, Sig: "bystander " + mr.Sig, Detail: "bystander connection next to a stalled peer: " + mr.Detail})
+			}
+		}
+		x.Probe("stalled_peer_with_concurrent_bystander")
+		return viol, true
+	}
 	if c.Variant != "enum" {
 		r := x.Run(c)
 		var base *Result
